@@ -535,8 +535,53 @@ func (e *specEnv) sliceExpr(n *ESlice) sv {
 	return sv{}
 }
 
+// qualified resolves pkg.Name where pkg is an import of the contract's package: constants become
+// literals, package-level variables are read from the state
+func (e *specEnv) qualified(n *EField) (sv, bool) {
+	id, ok := n.X.(*EIdent)
+	if !ok {
+		return sv{}, false
+	}
+	if _, bound := e.vars[id.Name]; bound {
+		return sv{}, false
+	}
+	u := e.u
+	pk, ok := u.eng.PkgByPath[e.pkgPath]
+	if !ok {
+		return sv{}, false
+	}
+	for _, ip := range pk.Imports {
+		if ip.Name != id.Name || ip.Types == nil {
+			continue
+		}
+		obj := ip.Types.Scope().Lookup(n.Name)
+		switch o := obj.(type) {
+		case *types.Const:
+			if b, ok := constToBig(o.Val()); ok {
+				return sv{lit: b}, true
+			}
+			if o.Val().Kind() == constant.String {
+				return sv{Val: Val{t: u.strConst(constant.StringVal(o.Val())), typ: types.Typ[types.String]}}, true
+			}
+		case *types.Var:
+			key := u.keyGlobal(ip.Name+"."+o.Name(), o.Type())
+			return sv{Val: Val{t: e.st.get(u, key), typ: o.Type()}}, true
+		}
+	}
+	return sv{}, false
+}
+
 func (e *specEnv) fieldExpr(n *EField) sv {
 	u := e.u
+	if v, ok := e.qualified(n); ok {
+		if e.fr != nil {
+			if _, shadow := e.fr.lookupName(n.X.(*EIdent).Name, e.at, e.inclusive, e.phiSub, e.st); !shadow {
+				return v
+			}
+		} else {
+			return v
+		}
+	}
 	x := e.eval(n.X, nil)
 	if x.typ == nil {
 		sfail("field of literal")
